@@ -272,6 +272,34 @@ def gen_program(rnd, depth, tmp):
     return {'templates': tps, 'steps': steps}
 
 
+def tstep_stacks(rnd, tier):
+    """C10: pieces of the time axis stacked in every order (the start
+    date/time must be the FIRST record's, whichever piece comes first), also
+    along LAY."""
+    def sl(a, b):
+        return {'k': 'slice', 'h': [a is not None, b is not None, False],
+                'v': [a or 0, b or 0, 0]}
+    progs = []
+    nts = {'I1': 3, 'I4': 4, 'I6': 3, 'I2': 2, 'I5': 3}
+    for t in sorted(nts):
+        n = nts[t]
+        for k in range(1, n):
+            steps = [{'act': 'slice', 'src': 1, 'others': [], 'args': {
+                'sels': [{'d': 'TSTEP', 's': sl(None, k)}],
+                'newdim': 'POINTS'}},
+                {'act': 'slice', 'src': 1, 'others': [], 'args': {
+                    'sels': [{'d': 'TSTEP', 's': sl(k, None)}],
+                    'newdim': 'POINTS'}}]
+            for src, others in ((3, [4]), (4, [3]), (4, [3, 4]), (3, [3])):
+                steps.append({'act': 'stack', 'src': src, 'others': others,
+                              'args': {'dim': 'TSTEP',
+                                       'aslist': len(others) > 1}})
+            # a copy of the out-of-order stack rebuilds TFLAG from the header
+            steps.append({'act': 'copy', 'src': 6, 'others': [], 'args': {}})
+            progs.append({'templates': [t, t], 'steps': steps})
+    return progs
+
+
 def execute(arg):
     tid, prog = arg
     import warnings
@@ -359,6 +387,8 @@ def run_ioapi(out, tier, prop):
             progs.append(gen_program(rnd, depth, tmp))
     finally:
         shutil.rmtree(tmp, ignore_errors=True)
+    if prop == 'C10':
+        progs += tstep_stacks(rnd, tier)
     mcp = mc_programs(out, tier, prop)
     out.cov['programs_emitted_by_tlc'] = len(mcp)
     if tier == 'quick' and len(mcp) > 700:
